@@ -17,6 +17,20 @@ type C01Case struct {
 	// Route != 0: the container is built through the construction routes of BuildVariant (NewListOf +
 	// Replace, Concat of halves, SubList of a longer list, typed-slice origin, spare capacity, parser ...)
 	Route int `json:"route,omitempty"`
+	// Poison > 0: before the round trip both parsers are given the container's own text cut after
+	// Poison mod len bytes (a truncated document: the parse fails, usually in the middle of a literal);
+	// whatever the failed parse leaves behind must not reach the next one
+	Poison int `json:"poison,omitempty"`
+}
+
+// poisonParser hands a truncated copy of text to both parsers and ignores what they make of it.
+func poisonParser(text string, cut int) {
+	if cut <= 0 || len(text) == 0 {
+		return
+	}
+	p := text[:cut%len(text)]
+	guarded("parser", callParseList(p))
+	guarded("parser", callParseObject(p))
 }
 
 // genRoute draws the construction-route seed of a text-property case: 0 (plain Add/Set) in three cases of four.
@@ -106,6 +120,9 @@ func GenC01(t *rapid.T) *C01Case {
 		c.Root, c.Share = withSharedChild(t, c.Root)
 	}
 	c.Route = genRoute(t, c.Share)
+	if oneIn(t, 6, "poison") {
+		c.Poison = 1 + genRaw(t)
+	}
 	if oneIn(t, 5, "remutate") {
 		c.Muts = genNestedMuts(t)
 	}
@@ -156,6 +173,13 @@ func CheckC01(c *C01Case, st *Stats) error {
 	orig := buildMaybeShared(c.Root, c.Share, c.Route)
 	if c.Share {
 		st.Count("shared_instance")
+	}
+	if c.Poison > 0 {
+		var text string
+		if _, panicked := catch(func() { text = stringOf(orig) }); !panicked {
+			poisonParser(text, c.Poison)
+			st.Count("failed_parse_first")
+		}
 	}
 	if err := roundTrip(orig, c.Root, st); err != nil {
 		return err
